@@ -17,7 +17,7 @@ from .peer import PeerSim
 
 ACTIVE = ConnectionState.ACTIVE
 LAWS = ["silent", "periodic", "burst", "answer", "answer_wrong", "answer_noid", "mixed", "peer_testreq", "answer_gap",
-        "gap_silent"]
+        "gap_silent", "garbled"]
 
 
 def make_config(seed, tier="quick"):
@@ -63,6 +63,14 @@ def make_config(seed, tier="quick"):
         # the peer sends one message numbered ahead (the endpoint asks for a resend and waits), then dies: a session
         # that awaits a resend is watched like any other
         plan.append((round(r.uniform(0.0, 1.5) * hb, 3), "gap", r.choice([1, 2, 5])))
+    elif law == "garbled":
+        # the socket stays busy but no message arrives: Heartbeats with a wrong CheckSum / single stray bytes, more
+        # often than once per interval - for the watchdog this peer is silent
+        per = max(0.2, r.uniform(0.2, 0.8) * hb)
+        t = r.uniform(0, per)
+        while t < span + 3 * hb:
+            plan.append((round(t, 3), "noise", r.choice(["badsum", "byte"])))
+            t += per
     elif law == "peer_testreq":
         per = max(0.3, r.uniform(0.2, 0.9) * hb)
         t = r.uniform(0, per)
@@ -73,11 +81,11 @@ def make_config(seed, tier="quick"):
             rid = {"unique": f"PQ{k}", "const": "TEST", "coarse": f"T{k // 3}", "numeric": str(1700000000 + k // 2)}[ids]
             plan.append((round(t, 3), "testreq", rid))
             t += per
-    if r.random() < 0.15 and law not in ("answer_wrong", "gap_silent"):
+    if r.random() < 0.15 and law not in ("answer_wrong", "gap_silent", "garbled"):
         # an unsolicited Heartbeat carrying a TestReqID nobody asked for, while nothing is outstanding
         plan.append((round(r.uniform(0, 0.5) * hb, 3), "hb_id", "777"))
     rq = random.Random(seed ^ 0xC1277)
-    if rq.random() < 0.15 and law != "gap_silent":  # (after the gap the peer is dead: no further frames of its own)
+    if rq.random() < 0.15 and law not in ("gap_silent", "garbled"):  # (after the gap the peer is dead: no further frames of its own)
         # the peer asks for a resend of an empty / invalid range (nothing to replay): ordinary valid traffic as far
         # as the watchdog is concerned, and the session has to be watched exactly as before afterwards
         plan.append((round(rq.uniform(0, 0.6) * span, 3), "peer_rr", rq.choice(["beyond", "zero", "inverted", "all"])))
@@ -99,6 +107,7 @@ def make_config(seed, tier="quick"):
         # behind by the first connection must not disturb the watchdog of the second)
         prelude_drop=prelude,
         wrong_dup=random.Random(seed ^ 0xC12D0).random() < 0.4,
+        logon_hb=random.Random(seed ^ 0xC1208).choice([0, 0, 0, 1, 7 * hb, 1000]),
         prelude_mode=random.Random(seed ^ 0xC1290).choice(["peer_drop", "peer_drop", "app_logout"]),
         prelude_pause_s=random.Random(seed ^ 0xC1291).choice([0.4, 1.2, 2.3, 3.4]),
         prelude_after=round(r.uniform(0.05, 1.2) * hb, 3),
@@ -155,7 +164,9 @@ class WatchdogSim(PeerSim):
 
     def peer_event(self, kind):
         if kind == "connected" and self.eut_role == "acceptor":
-            self.peer.send("A", [("98", "0"), ("108", self.cfg["hb"])], spec={"stim": "logon"})
+            # (the HeartBtInt the peer asks for may differ from the period this endpoint was configured with: the
+            # watchdog under test is the endpoint's own)
+            self.peer.send("A", [("98", "0"), ("108", self.cfg.get("logon_hb") or self.cfg["hb"])], spec={"stim": "logon"})
         if kind in ("eof", "lost") and self.prelude_state == "dropped" and self.eut_role == "acceptor":
             self.prelude_state = "reconnecting"
             self.schedule_reconnect(self.cfg["prelude_reconnect"])
@@ -287,6 +298,15 @@ class WatchdogSim(PeerSim):
             p.send("D", [("11", f"P-{self.app_id}"), ("55", "ES"), ("54", "1"), ("38", "1"), ("44", "1")], spec={"plan": "app"})
         elif kind == "testreq":
             p.send("1", [("112", arg)], spec={"plan": "testreq", "id": arg})
+        elif kind == "noise":
+            if arg == "badsum":
+                fr = refframer.build("0", [], sender=p.comp_id, target=p.eut_comp_id, seq=p.next_out, cks="000")
+                if fr.endswith(b"10=000\x01") and refframer.check_frame(fr) is None:
+                    fr = refframer.build("0", [], sender=p.comp_id, target=p.eut_comp_id, seq=p.next_out, cks="001")
+                p.send_raw(fr, {"t": "noise"})
+            else:
+                p.send_raw(b"\x00", {"t": "noise"})
+            self.fault("noise_bytes_without_a_message")
         elif kind == "gap":
             self.app_id += 1
             p.auto["resend"] = False  # (it never fills the gap: it is dead from now on)
